@@ -17,6 +17,7 @@ import (
 	"github.com/oasisprotocol/oasis-core/go/consensus/api/transaction"
 
 	"verifharness/ev"
+	"verifharness/mut"
 )
 
 type ctxT = context.Context
@@ -64,7 +65,7 @@ func rapidGroup(t *testing.T, name string) {
 		}
 	}
 	rapid.Check(t, func(rt *rapid.T) {
-		tg := weighted[rapid.IntRange(0, len(weighted)-1).Draw(rt, "target")]
+		tg := mut.Pick(rt, "target", weighted)
 		in, seedName, how, kinds := genInput(rt, tg)
 		if sig := excluded(tg, in); sig != "" {
 			rec.Discard("excluded:" + sig)
